@@ -127,7 +127,7 @@ def rust_ident(n):
 
 def handler_src(prog, part, m, in_trait):
     """Signature (trait) or echo implementation of one handler."""
-    ctx_ty, ctx_fn = CTX[m["kind"]]
+    ctx_ty, ctx_fn = CTX[m.get("ctxkind") or m["kind"]]      # (the context type may be written as that of a sibling kind)
     # the type parameter is spelled `Self::ItemT` in an interface (and its impl) and `T` in the contract
     gen_name = "T" if part["id"] == "own" else "Self::ItemT"
     # argument attributes are written where a sylvia macro sees them: the interface trait and the contract impl
